@@ -162,6 +162,15 @@ def hybrid(chk, count, n=3):
         if not any(o["name"] in ("Kgate", "Vgate", "CKgate") for o in circ):
             circ[rnd.randrange(L)] = rnd.choice([o for o in pool if o["name"] in ("Kgate", "Vgate", "CKgate")])
         items.append({"n": n, "circ": circ})
+    # structured family: a two-mode Gaussian gate, a one-mode Gaussian gate, a non-Gaussian gate, a two-mode Gaussian gate on two
+    # modes (the last gate reaches the first through one wire and the non-Gaussian gate through the other)
+    p2 = hybrid_pool(2)
+    g2 = [o for o in p2 if o["name"] in ("BSgate", "S2gate")]
+    g1 = [o for o in p2 if o["name"] in ("Rgate", "Sgate", "Dgate")]
+    ng = [o for o in p2 if o["name"] in ("Kgate", "Vgate", "CKgate")]
+    fam = [[a, b, c, d] for a in g2 for b in g1 for c in ng for d in g2]
+    step = 4 if chk.tier == "quick" else 1
+    items += [{"n": 2, "circ": c} for c in fam[(chk.seed % step)::step]]
     res = common.pmap(_hybrid_one, items)
     cases, owners = [], []
     for it, o in zip(items, res):
